@@ -55,6 +55,11 @@ class Contract:
         # ghost_args = {callee key: {ghost param: expr over the caller's state at the call}} at call sites
         self.ghost_params: dict[str, str] = kw.pop("ghost_params", {})
         self.ghost_args: dict[str, dict[str, str]] = kw.pop("ghost_args", {})
+        # call_asserts: {"Cls.callee": [clauses]} - obligations of THIS function at each of its calls of that callee, stated
+        # over the caller's state plus `arg_<param>` = the ACTUAL argument value of the call (before it is coerced to the
+        # callee's declared parameter type): lets a caller's contract say what it passes, e.g. which delivery-handler
+        # arguments it registers, where the callee's own parameter is typed Any
+        self.call_asserts: dict[str, list[str]] = kw.pop("call_asserts", {})
         # native witnesses for ghost parameters (engine/native only): {name: python expression over the parameters}
         self.ghost_native: dict[str, str] = kw.pop("ghost_native", {})
         # check_frame: when the function is verified, every heap field it writes (or lets a callee havoc) must be
